@@ -49,10 +49,10 @@ G_GROUPS = {
     "g2m": ("G_undo_g2m.cfg", "m", {"thorough": 10000}),
     # XML scope (root fragment x): from the empty fragment (c*, f*, g*), with content of another origin prepared before the
     # manager starts (p*: trimmed edit menu), deep histories of ONE attribute of one element (xk*)
-    "c3x": ("G_undo_c3x.cfg", "x", {"quick": 700, "thorough": None}),
-    "p2x": ("G_undo_p2x.cfg", "xp", {"quick": 600, "thorough": None}),
-    "f2x": ("G_undo_f2x.cfg", "x", {"quick": 600, "thorough": 15000}),
-    "xk4": ("G_undo_xk4.cfg", "x", {"quick": 300, "thorough": None}),
+    "c3x": ("G_undo_c3x.cfg", "x", {"quick": 400, "thorough": None}),
+    "p2x": ("G_undo_p2x.cfg", "xp", {"quick": 300, "thorough": None}),
+    "f2x": ("G_undo_f2x.cfg", "x", {"quick": 400, "thorough": 15000}),
+    "xk4": ("G_undo_xk4.cfg", "x", {"quick": 200, "thorough": None}),
     "pf2x": ("G_undo_pf2x.cfg", "xp", {"thorough": 15000}),
     "p3x": ("G_undo_p3x.cfg", "xp", {"thorough": 20000}),
     "c4x": ("G_undo_c4x.cfg", "x", {"thorough": 20000}),
@@ -65,7 +65,8 @@ G_GROUPS = {
     "w2a": ("G_undo_w2a.cfg", "wa", {"quick": None, "thorough": None}),
     "w2m": ("G_undo_w2m.cfg", "wm", {"quick": None, "thorough": None}),
     "w2x": ("G_undo_w2x.cfg", "wx", {"quick": None, "thorough": None}),
-    "wf2x": ("G_undo_wf2x.cfg", "wx", {"quick": 150, "thorough": 6000}),
+    "wf1x": ("G_undo_wf1x.cfg", "wx", {"quick": 100, "thorough": 4000}),
+    "wf2x": ("G_undo_wf2x.cfg", "wx", {"thorough": 6000}),
     "wf2t": ("G_undo_wf2t.cfg", "wt", {"thorough": 4000}),
     "wf2a": ("G_undo_wf2a.cfg", "wa", {"thorough": 4000}),
     "wf2m": ("G_undo_wf2m.cfg", "wm", {"thorough": 4000}),
@@ -79,15 +80,15 @@ XML_GROUPS = [g for g in G_GROUPS if G_GROUPS[g][1] in ("x", "xp", "wx")]
 # between them: one capture step anyway) is ONE transaction (step `umulti`); in every second variant the transaction also edits
 # a root outside the scope.  name -> (base group, {tier: sample size})
 MULTI_GROUPS = {
-    "mt": ("c3t", {"quick": 120, "thorough": 3000}),
-    "ma": ("c3a", {"quick": 120, "thorough": 3000}),
-    "mm": ("c3m", {"quick": 120, "thorough": 3000}),
-    "mx": ("c3x", {"quick": 120, "thorough": 3000}),
+    "mt": ("c3t", {"quick": 80, "thorough": 3000}),
+    "ma": ("c3a", {"quick": 80, "thorough": 3000}),
+    "mm": ("c3m", {"quick": 80, "thorough": 3000}),
+    "mx": ("c3x", {"quick": 80, "thorough": 3000}),
 }
 TIERS = {
-    "quick": {"gen": ["c3t", "c3a", "c3m", "k4", "f2t", "f2a", "f2m", "c3x", "p2x", "f2x", "xk4", "w2t", "w2a", "w2m", "w2x", "wf2x"],
+    "quick": {"gen": ["c3t", "c3a", "c3m", "k4", "f2t", "f2a", "f2m", "c3x", "p2x", "f2x", "xk4", "w2t", "w2a", "w2m", "w2x", "wf1x"],
               "multi": ["mt", "ma", "mm", "mx"], "deep": 2, "deep_n": 400,
-              "deepx": 1, "deepx_n": 250},
+              "deepx": 1, "deepx_n": 150},
     "thorough": {"gen": list(G_GROUPS), "multi": list(MULTI_GROUPS), "deep": 12, "deep_n": 1500, "deepx": 6, "deepx_n": 1500},
 }
 
